@@ -64,7 +64,10 @@ def namespace(c, args):
           '_UNBOUNDED': range(-3, 40)}
     for name, src in c.get('pyfuncs', {}).items():
         exec(src, ns)
-    ns.update(args)
+    ns.update({k: v for k, v in args.items() if '.' not in k})
+    selfattrs = {k.split('.', 1)[1]: v for k, v in args.items() if k.startswith('self.')}
+    if selfattrs:
+        ns['self'] = type('Self', (), selfattrs)()
     return ns
 
 
@@ -98,9 +101,13 @@ def replay(rp):
             print('precondition %r not evaluable (%s)' % (txt, e))
             return 0
     import copy
-    call_args = [copy.deepcopy(inputs[a]) for a, t in c['args'].items() if t != 'kwargs']
     try:
-        res = f(*call_args)
+        if c.get('replay_call'):
+            # methods: the contract says how to build the receiver from the model values
+            res = eval(c['replay_call'])(mod, copy.deepcopy(inputs))
+        else:
+            call_args = [copy.deepcopy(inputs[a]) for a, t in c['args'].items() if t != 'kwargs']
+            res = f(*call_args)
     except Exception as e:
         print('REPRODUCED: real function raises %s: %s (contract allows no exception here)' % (type(e).__name__, e))
         return 1
